@@ -135,7 +135,7 @@ pub fn escape_fragments() -> (Vec<String>, Vec<String>) {
         valid.push(format!("\\u{{{}}}", a));
     }
     // malformed: wrong digit counts, bad characters, out-of-range values, missing braces
-    for a in ["", "3", "30", "30A", "30Ag", "g", "-", "{", "{}", "{g}", "{4", "{41", "{4g}", "{41 }", "{ 41}", "{30000}", "{3FFFF}", "{FFFFF}", "{fffff}", "{100000}", "{000041}", "{02ffff}", "{0000041}", "{00000000}", "{2FFFFF}", "{2FFFF", "{2FFF", "{AC", "{ACG}", "{ACg", "2C-", "2C", "AC0", "u0041", "{\\u0041}", "}"] {
+    for a in ["", "3", "30", "30A", "30Ag", "g", "-", "{", "{}", "{g}", "{4", "{41", "{4g}", "{41 }", "{ 41}", "{30000}", "{3FFFF}", "{FFFFF}", "{fffff}", "{100000}", "{000041}", "{02ffff}", "{0000041}", "{00000000}", "{2FFFFF}", "{2FFFF", "{2FFF", "{AC", "{ACG}", "{ACg", "2C-", "2C", "AC0", "u0041", "{\\u0041}", "}", "{+41}", "+041", "{-41}", "-041", "{+}", "{0x41}", "0x41", "{4_1}", "{ +41}", "{41+}", "+41}", "{+0041}", "{+2FFFF}", "+FFF", "{41h}", "{١}", "{４1}"] {
         malformed.push(format!("\\u{}", a));
     }
     for h in hex {
@@ -156,7 +156,7 @@ pub fn escape_fragments() -> (Vec<String>, Vec<String>) {
 pub fn run(p: &Params, rep: &mut Report) {
     let seed = p.seed;
     // (1) exhaustive texts over the escape alphabet
-    let sym: Vec<char> = vec!['\\', 'u', '{', '}', '"', '0', 'a', 'F', 'g', '2'];
+    let sym: Vec<char> = vec!['\\', 'u', '{', '}', '"', '0', 'a', 'F', 'g', '2', '+'];
     let maxlen = match (p.thorough, p.profile == "rel") {
         (true, true) => 8,
         (true, false) | (false, true) => 7,
